@@ -313,4 +313,132 @@ pub fn nesting(depth: usize, expect_ok: bool) {
     std::mem::forget((r, buf, v));
 }
 
+// ---------------------------------------------------------------------------------------------------
+// C22 kernel: whatever text a reply carries, its encoding is exactly one frame.
+// Compositional with the families above: `line`/`readline` show that a line frame ends at the FIRST CRLF
+// of the buffer; so the encoder must produce a buffer whose first CRLF is its last two bytes.
+// ---------------------------------------------------------------------------------------------------
+fn ascii_string<const L: usize>() -> String {
+    let b: [u8; L] = kani::any();
+    let mut s = String::with_capacity(L);
+    let mut i = 0;
+    while i < L {
+        kani::assume(b[i] < 128); // all ASCII incl. CR and LF
+        s.push(b[i] as char);
+        i += 1;
+    }
+    s
+}
+
+/// SimpleString (err=false) / Error (err=true) with L arbitrary ASCII characters, CR and LF included.
+pub fn reply_line<const L: usize>(err: bool) {
+    let text = ascii_string::<L>();
+    let v = if err { RespValue::Error(text) } else { RespValue::SimpleString(text) };
+    let mut out: Vec<u8> = Vec::with_capacity(L + 8);
+    let r = v.encode(&mut out);
+    assert!(r.is_ok(), "C22 encode failed");
+    assert!(out.len() >= 3, "C22 reply shorter than a frame");
+    assert!(out[0] == if err { b'-' } else { b'+' }, "C22 reply type byte");
+    assert!(first_crlf(&out) == Some(out.len() - 2), "C22 a reply line contains a CRLF before its end: it decodes as more than one frame");
+    vk_cover!(true, "reach");
+    std::mem::forget((v, out, r));
+}
+
+/// Bulk string reply with L arbitrary bytes: exact wire layout  $<L> CRLF <bytes> CRLF.
+pub fn reply_bulk<const L: usize>() {
+    let d: [u8; L] = kani::any();
+    let v = RespValue::BulkString(Some(d.to_vec()));
+    let mut out: Vec<u8> = Vec::with_capacity(L + 8);
+    let r = v.encode(&mut out);
+    assert!(r.is_ok(), "C22 encode failed");
+    assert!(out.len() == L + 6, "C22 bulk reply length");
+    assert!(out[0] == b'$' && out[1] == b'0' + L as u8 && out[2] == b'\r' && out[3] == b'\n', "C22 bulk header");
+    let mut i = 0;
+    while i < L {
+        assert!(out[4 + i] == d[i], "C22 bulk payload");
+        i += 1;
+    }
+    assert!(out[L + 4] == b'\r' && out[L + 5] == b'\n', "C22 bulk trailer");
+    vk_cover!(true, "reach");
+    std::mem::forget((v, out, r));
+}
+
+/// Integer reply: `:` optional `-` digits CRLF, nothing else.
+pub fn reply_integer() {
+    let i: i64 = kani::any();
+    kani::assume(i > -100000 && i < 100000); // keeps the digit loop of core::fmt small (stated bound)
+    let v = RespValue::Integer(i);
+    let mut out: Vec<u8> = Vec::with_capacity(16);
+    let r = v.encode(&mut out);
+    assert!(r.is_ok(), "C22 encode failed");
+    let n = out.len();
+    assert!(n >= 4 && n <= 9 && out[0] == b':', "C22 integer reply shape");
+    assert!(out[n - 2] == b'\r' && out[n - 1] == b'\n', "C22 integer reply trailer");
+    let mut k = 1;
+    while k < n - 2 {
+        let c = out[k];
+        assert!((c >= b'0' && c <= b'9') || (k == 1 && c == b'-'), "C22 integer reply holds a non-digit");
+        k += 1;
+    }
+    vk_cover!(i < 0, "reach negative");
+    std::mem::forget((v, out, r));
+}
+
+/// Array reply [Error(a), SimpleString(b), Null, BulkString(None)]: header + each element exactly one frame.
+pub fn reply_array<const L: usize>() {
+    let a = ascii_string::<L>();
+    let b = ascii_string::<L>();
+    let v = RespValue::Array(vec![RespValue::Error(a), RespValue::SimpleString(b), RespValue::Null, RespValue::BulkString(None)]);
+    let mut out: Vec<u8> = Vec::with_capacity(2 * L + 24);
+    let r = v.encode(&mut out);
+    assert!(r.is_ok(), "C22 encode failed");
+    // *4 CRLF | -a CRLF | +b CRLF | _ CRLF | $-1 CRLF
+    assert!(out.len() == 4 + (L + 3) + (L + 3) + 3 + 5, "C22 array reply length");
+    assert!(&out[..4] == b"*4\r\n", "C22 array header");
+    let e1 = &out[4..4 + L + 3];
+    let e2 = &out[4 + L + 3..4 + 2 * (L + 3)];
+    assert!(e1[0] == b'-' && first_crlf(e1) == Some(L + 1), "C22 array element 1 is not one frame");
+    assert!(e2[0] == b'+' && first_crlf(e2) == Some(L + 1), "C22 array element 2 is not one frame");
+    assert!(&out[4 + 2 * (L + 3)..] == b"_\r\n$-1\r\n", "C22 array tail");
+    vk_cover!(true, "reach");
+    std::mem::forget((v, out, r));
+}
+
+// ---------------------------------------------------------------------------------------------------
+// C20: the connection loop's decision skeleton around the real decode (src/protocol/server.rs:
+// Ok(Some) -> dispatch and continue, Ok(None) | Err(Incomplete) -> wait for the next read,
+// Err(_) -> reply with an error and wait for the next read).  `feed` is that skeleton.
+// ---------------------------------------------------------------------------------------------------
+pub struct Conn {
+    pub buf: BytesMut,
+    pub got: Vec<RespValue>,
+    pub errors: usize,
+}
+impl Conn {
+    pub fn new() -> Self {
+        Conn { buf: BytesMut::with_capacity(64), got: Vec::with_capacity(4), errors: 0 }
+    }
+    /// one decode attempt of the loop; returns false when the loop would go back to reading the socket
+    pub fn attempt(&mut self, layout: &[usize]) -> bool {
+        set_layout(layout);
+        let before = self.buf.len();
+        match RespValue::decode(&mut self.buf) {
+            Ok(Some(v)) => {
+                self.got.push(v);
+                true
+            }
+            Ok(None) | Err(RespError::Incomplete) => {
+                // the loop now waits for the next read and will call decode again on the same buffer + more
+                // bytes: anything consumed here is lost from the frame
+                assert!(self.buf.len() == before, "C20 decoder consumed bytes although it asked for more data");
+                false
+            }
+            Err(_) => {
+                self.errors += 1;
+                false
+            }
+        }
+    }
+}
+
 include!(concat!(env!("VK_GEN_DIR"), "/c21_gen.rs"));
